@@ -9,6 +9,10 @@ NAMES = {"Gxx_dev", "Gyy_dev", "Gxy_dev", "Hxy_dev", "coh_dev", "Gxx_error", "Gy
          "Hxy_rad_error", "Hxy_deg_error", "coh_error", "navg", "coh"}
 
 
+def _hist_worker(item):
+    return rc.replay_history(item)
+
+
 def run(tier):
     V = common.Verdict(PID, tier, "model_checking")
     res, cases = R.grid_cases(f"{PID}_grid")
@@ -16,6 +20,18 @@ def run(tier):
     R.replay_grid(V, PID, cases, NAMES, "grid")
     V.sample({"grid_case": cases[len(cases) // 2]["bins"][0], "expected": {k: cases[len(cases) // 2]["exp"][k] for k in ("Gxy_dev", "Hxy_dev", "coh_dev", "Hxy_rad_error")}})
     R.run_traces(V, PID, tier, common.seed(), lambda rnd: [])
+    # the error bars are views of one estimate: they must not change with what was looked at (or plotted) before
+    res2, results, hists = R.hist_cases(f"{PID}_hist", 2)
+    V.model(res2, "Result.tla scope=hist (operation histories of length 2, incl. plots with error bands)")
+    items = [(results[rid], h) for rid, h in hists if h[-1]["op"] in ("get", "frame") and (h[-1]["op"] == "frame" or h[-1]["name"] in NAMES)]
+    out = common.pmap(_hist_worker, items, chunksize=32)
+    for (case, h), probs in zip(items, out):
+        V.case({"bins": case["bins"], "hist": h}, True)
+        for p in probs:
+            if p[1] in NAMES or p[1] == "":
+                V.violation(f"{PID}|history|{'csd' if case['iscsd'] else 'auto'}|{h[0]['op']}:{h[0]['name']}|{p[1]}|{str(p[3]).split(' ')[0]}",
+                            {"kind": "result_history", "case": case, "hist": h, "problem": p,
+                             "message": f"history {[(o['op'], o['name']) for o in h]}: {p}"})
     V.assumptions += ["the Monte-Carlo clause (deviations match the observed spread over independent realisations) is a distributional statement and is not decided by this technique (DESIGN.md §0)",
                       "deviations are compared in squared form (no square roots in the specification)"]
     return V.finish(rule="cases = every result of Result.tla's grid (8 coherence values x 4 segment counts x magnitudes x phases x auxiliaries, auto and cross) x 13 error attributes; recorded analyses: every bin; distinct by content hash")
@@ -28,6 +44,10 @@ def replay(payload):
         case["exp"] = {payload["name"]: payload["expected_def"]}
         case["measure"] = {}
         p = rc.replay_grid_case(case, {payload["name"]})
+        print(p)
+        return 1 if p else 0
+    if payload["kind"] == "result_history":
+        p = rc.replay_history((payload["case"], payload["hist"]))
         print(p)
         return 1 if p else 0
     return R.replay_trace(payload)
